@@ -8,6 +8,7 @@ import (
 	"go/types"
 	"strings"
 
+	"golang.org/x/tools/go/ssa"
 	"golang.org/x/tools/go/types/typeutil"
 )
 
@@ -845,4 +846,321 @@ func checkRowsCount(c *Ctx) {
 		}
 		r.Check(bad == 0 && nq >= 2, sc.Name(), "RowsAffected defined on every path", sc.Body.Pos(), "ScanRows, or an explicit value when no row arrived", "(*DB).Scan leaves RowsAffected undefined when the query returns no row: it reports the count of an earlier finisher on the same handle (or -1)")
 	}
+}
+
+// C11.descent: Preload combined with association Joins descends into the joined relation once per kind of
+// destination (slice/array of parents, single parent).  The sibling descents must agree: each hands the
+// recursion the remainder of the join paths below that relation (the value isJoined computed), the
+// relationships of the descended schema, and the same preload map and conditions.
+func checkC11Descent(c *Ctx) {
+	p := c.P
+	r := c.Rule("C11.descent", "SIBLINGS(descents of preloadEntryPoint into a joined relation): same arguments, join paths = remainder below the relation", 2)
+	f := p.FuncDecl(pkgCallbacks, "preloadEntryPoint")
+	c.Touch(f)
+	info := f.Pkg.TypesInfo
+	pdb := p.FuncDecl(pkgCallbacks, "preloadDB").Obj
+	joinsParam := paramName(f, 1)
+	type descent struct {
+		call *ast.CallExpr
+		args []string
+	}
+	var ds []descent
+	for _, fs := range append([]*FuncSrc{f}, p.AllLits(f)...) {
+		for _, call := range callsIn(fs) {
+			if fn, _ := typeutil.Callee(info, call).(*types.Func); fn != f.Obj || len(call.Args) < 2 {
+				continue
+			}
+			// first argument: a local defined as preloadDB(...)
+			id, ok := unparen(call.Args[0]).(*ast.Ident)
+			if !ok {
+				continue
+			}
+			isDesc := false
+			for _, d := range localDefs(fs, id.Name, id.Pos()) {
+				if ce, ok := unparen(d.rhs).(*ast.CallExpr); ok {
+					if fn, _ := typeutil.Callee(info, ce).(*types.Func); fn == pdb {
+						isDesc = true
+					}
+				}
+			}
+			if !isDesc {
+				continue
+			}
+			var args []string
+			for _, a := range call.Args[1:] {
+				args = append(args, canon(info, a))
+			}
+			ds = append(ds, descent{call, args})
+		}
+	}
+	if len(ds) < 2 {
+		r.Bad(f.Name(), "descents", f.Body.Pos(), "fewer than two descents into a joined relation found (slice and single-parent destinations)")
+		return
+	}
+	ref := ds[0].args
+	for _, d := range ds {
+		same := len(d.args) == len(ref)
+		for i := range d.args {
+			if same && d.args[i] != ref[i] {
+				same = false
+			}
+		}
+		notCurrent := len(d.args) > 0 && d.args[0] != joinsParam
+		r.Check(same && notCurrent, f.Name(), "descent into the joined relation", d.call.Pos(), "("+strings.Join(ref, ", ")+")", "the descents into a joined relation disagree, or pass the current level's join paths down ("+strings.Join(d.args, ", ")+"): one level down the join names are matched against the wrong schema and a same-named relation is treated as already joined - its preload is silently skipped for that kind of destination")
+	}
+}
+
+// checkRegroupScans (C02.regroup-scan): every place that regroups lone-OR conditions before ANDing a
+// library condition onto the user's WHERE (soft-delete filter, batch cursor) scans all members.
+func checkRegroupScans(c *Ctx, r *Rule) {
+	p := c.P
+	for _, f := range []*FuncSrc{p.MethodDecl(pkgGorm, "SoftDeleteQueryClause", "ModifyStatement"), p.MethodDecl(pkgGorm, "DB", "FindInBatches")} {
+		c.Touch(f)
+		store, hasAnd := findRegroup(p, f)
+		r.Check(store != nil && hasAnd && regroupScansAll(f, store), f.Name(), "regroup of lone-OR conditions", f.Body.Pos(), "scans every member, wraps all of them into one AND unit", "the user's conditions are not regrouped as a whole before a library condition is ANDed on: for some form of the first unit (a map, struct or group rendered as an AND group) `(a AND b) OR c AND <library condition>` restricts only `c`")
+	}
+}
+
+// C04.block-handle: inside the function the library hands to its own Transaction call the work runs on the
+// block's handle (the function's *DB parameter), not on a handle of the enclosing scope - otherwise the block
+// stays empty and a later failure rolls nothing back.
+func checkC04BlockHandle(c *Ctx) {
+	p := c.P
+	r := c.Rule("C04.block-handle", "functions handed to (*DB).Transaction inside the library work on the block's handle", 1)
+	p.SSA()
+	dbT := p.Named(pkgGorm, "DB")
+	txFn := p.SSAFunc(p.Method(dbT, "Transaction"))
+	procExec := p.SSAFunc(p.Method(p.Named(pkgGorm, "processor"), "Execute"))
+	finishers := finisherSet(p)
+	blocks := map[*ssa.Function]bool{}
+	for _, fn := range p.SSAFuncs() {
+		if fn.Blocks == nil {
+			continue
+		}
+		forEachInstrFlat(fn, func(in ssa.Instruction) {
+			ci, ok := in.(ssa.CallInstruction)
+			if !ok || ci.Common().StaticCallee() != txFn {
+				return
+			}
+			for _, a := range ci.Common().Args {
+				collectClosures(a, blocks, 0)
+			}
+		})
+	}
+	n := 0
+	for blk := range blocks {
+		if len(blk.Params) == 0 {
+			continue
+		}
+		n++
+		name := ssaFuncName(blk)
+		c.TouchName(ssaFuncName(rootSSA(blk)))
+		param := blk.Params[0].Name()
+		forEachInstrFlat(blk, func(in ssa.Instruction) {
+			ci, ok := in.(ssa.CallInstruction)
+			if !ok {
+				return
+			}
+			callee := ci.Common().StaticCallee()
+			if callee == nil {
+				return
+			}
+			var handle ssa.Value
+			switch {
+			case callee == procExec && len(ci.Common().Args) == 2:
+				handle = ci.Common().Args[1]
+			case finishers[callee] && len(ci.Common().Args) >= 1:
+				handle = ci.Common().Args[0]
+			default:
+				return
+			}
+			paths := valuePaths(handle)
+			okh := len(paths) > 0
+			for _, pth := range paths {
+				root := pth
+				if i := strings.IndexAny(root, ".["); i >= 0 {
+					root = root[:i]
+				}
+				if root != param {
+					okh = false
+				}
+			}
+			r.Check(okh, name, "work inside the block: "+callee.Name(), in.Pos(), "handle derived from the block's parameter "+param, "inside a function the library runs through Transaction, "+callee.Name()+" runs on "+strings.Join(paths, "|")+" instead of a handle derived from the block's own parameter: the statements are executed outside the transaction, which stays empty - a failure later in the block rolls nothing back")
+		})
+	}
+	if n == 0 {
+		r.Bad("gorm", "library transaction blocks", 0, "no function literal is handed to (*DB).Transaction inside the library any more; rule lost its anchor")
+	}
+}
+
+func collectClosures(v ssa.Value, out map[*ssa.Function]bool, depth int) {
+	if depth > 4 {
+		return
+	}
+	switch x := v.(type) {
+	case *ssa.MakeClosure:
+		if f, ok := x.Fn.(*ssa.Function); ok {
+			out[f] = true
+		}
+	case *ssa.Function:
+		out[x] = true
+	case *ssa.UnOp:
+		// a local holding the closure: follow the stores into its cell
+		if al, ok := x.X.(*ssa.Alloc); ok && al.Referrers() != nil {
+			for _, ref := range *al.Referrers() {
+				if st, ok := ref.(*ssa.Store); ok {
+					collectClosures(st.Val, out, depth+1)
+				}
+			}
+		}
+	case *ssa.Phi:
+		for _, e := range x.Edges {
+			collectClosures(e, out, depth+1)
+		}
+	case *ssa.ChangeType:
+		collectClosures(x.X, out, depth+1)
+	}
+}
+
+// C17.keep-constraints / C17.recursion-bounded (added after the first C17 seed and the agent's note):
+//   keep       while sorting, the Before/After request of ANOTHER callback is rewritten only when that callback
+//              gave none itself (the field is empty): an explicit request is never overwritten
+//   bounded    the recursive sorter cannot recurse without bound: a callback naming itself, or two callbacks
+//              naming each other, must end in an error, not in a stack overflow (which kills the process -
+//              neither "an error is returned" nor "the pipeline runs").  Recognised bounds: a depth counter
+//              compared against a limit, or a visited set consulted on entry, each leading to an error return.
+func checkC17Sorter(c *Ctx) {
+	p := c.P
+	rk := c.Rule("C17.keep-constraints", "the sorter rewrites another callback's before/after only when it is empty", 2)
+	rb := c.Rule("C17.recursion-bounded", "the recursive sorter has a termination guard that ends in an error", 1)
+	sortF := p.FuncDecl(pkgGorm, "sortCallbacks")
+	cbT := p.Named(pkgGorm, "callback")
+	info := sortF.Pkg.TypesInfo
+	var inner *FuncSrc
+	for _, l := range p.AllLits(sortF) {
+		if l.Type.Params != nil && len(l.Type.Params.List) == 1 && l.Type.Results != nil && len(l.Type.Results.List) == 1 {
+			if tv, ok := info.Types[l.Type.Params.List[0].Type]; ok && p.isNamedPtr(tv.Type, cbT) {
+				inner = l
+			}
+		}
+	}
+	if inner == nil {
+		rk.Bad(sortF.Name(), "recursive sorter", sortF.Body.Pos(), "sortCallbacks no longer has the recursive closure; rule lost its anchor")
+		return
+	}
+	c.Touch(inner)
+	cParam := paramName(inner, 0)
+	gs := p.Guards(inner, nil)
+	beforeF, afterF := p.Field(cbT, "before"), p.Field(cbT, "after")
+	n := 0
+	ast.Inspect(inner.Body, func(nd ast.Node) bool {
+		as, ok := nd.(*ast.AssignStmt)
+		if !ok {
+			return true
+		}
+		for _, l := range as.Lhs {
+			sel, ok := unparen(l).(*ast.SelectorExpr)
+			if !ok || !(fieldSel(info, sel, beforeF) || fieldSel(info, sel, afterF)) {
+				continue
+			}
+			base := canon(info, sel.X)
+			if base == cParam {
+				continue // the callback being sorted itself
+			}
+			n++
+			facts, live := gs.At(as.Pos())
+			empty := live && facts.Has(fTrue(canon(info, sel)+` == ""`))
+			rk.Check(empty, inner.Name(), "rewrite of "+canon(info, sel), as.Pos(), "only when "+canon(info, sel)+` == ""`, "the sorter overwrites the "+sel.Sel.Name+" request of another callback without checking that it is empty: a callback registered "+strings.Title(sel.Sel.Name)+"(z) loses that request when a third callback names it, and runs on the wrong side of z without any error")
+		}
+		return true
+	})
+	if n < 2 {
+		rk.Bad(inner.Name(), "rewrites", inner.Body.Pos(), "fewer than two rewrites of another callback's before/after found")
+	}
+	// termination guard: an early error return under a comparison of an integer local that is incremented in
+	// the closure, or under a map look-up keyed by the callback (visited set)
+	bounded := false
+	ast.Inspect(inner.Body, func(nd ast.Node) bool {
+		ifs, ok := nd.(*ast.IfStmt)
+		if !ok {
+			return true
+		}
+		returnsErr := false
+		for _, st := range ifs.Body.List {
+			if rs, ok := st.(*ast.ReturnStmt); ok && len(rs.Results) == 1 && !isNilIdent(info, rs.Results[0]) {
+				returnsErr = true
+			}
+		}
+		if !returnsErr {
+			return true
+		}
+		ast.Inspect(ifs.Cond, func(x ast.Node) bool {
+			switch y := x.(type) {
+			case *ast.BinaryExpr:
+				if y.Op == token.GTR || y.Op == token.GEQ || y.Op == token.LSS || y.Op == token.LEQ {
+					for _, side := range []ast.Expr{y.X, y.Y} {
+						if id, ok := unparen(side).(*ast.Ident); ok {
+							if v, _ := info.Uses[id].(*types.Var); v != nil {
+								if b, ok := v.Type().Underlying().(*types.Basic); ok && b.Info()&types.IsInteger != 0 && incrementedIn(info, inner, v) {
+									bounded = true
+								}
+							}
+						}
+					}
+				}
+			case *ast.IndexExpr:
+				if tv, ok := info.Types[y.X]; ok {
+					if _, isMap := tv.Type.Underlying().(*types.Map); isMap && strings.HasPrefix(canon(info, y.Index), cParam) {
+						bounded = true
+					}
+				}
+			}
+			return true
+		})
+		return true
+	})
+	// a map look-up with comma-ok in an if-init counts as well
+	ast.Inspect(inner.Body, func(nd ast.Node) bool {
+		ifs, ok := nd.(*ast.IfStmt)
+		if !ok || ifs.Init == nil {
+			return true
+		}
+		as, ok := ifs.Init.(*ast.AssignStmt)
+		if !ok || len(as.Rhs) != 1 {
+			return true
+		}
+		if ix, ok := unparen(as.Rhs[0]).(*ast.IndexExpr); ok && strings.HasPrefix(canon(info, ix.Index), cParam) {
+			if tv, ok := info.Types[ix.X]; ok {
+				if _, isMap := tv.Type.Underlying().(*types.Map); isMap {
+					for _, st := range ifs.Body.List {
+						if rs, ok := st.(*ast.ReturnStmt); ok && len(rs.Results) == 1 && !isNilIdent(info, rs.Results[0]) {
+							bounded = true
+						}
+					}
+				}
+			}
+		}
+		return true
+	})
+	rb.Check(bounded, inner.Name(), "termination guard", inner.Body.Pos(), "depth bound or visited set leading to an error", "the recursive sorter has no termination guard: a callback registered Before/After itself, or two callbacks registered After each other, recurse until the stack overflows and the process dies - neither an error is returned nor does the pipeline run")
+}
+
+func incrementedIn(info *types.Info, f *FuncSrc, v *types.Var) bool {
+	found := false
+	ast.Inspect(f.Body, func(n ast.Node) bool {
+		switch x := n.(type) {
+		case *ast.IncDecStmt:
+			if id, ok := unparen(x.X).(*ast.Ident); ok && info.Uses[id] == v && x.Tok == token.INC {
+				found = true
+			}
+		case *ast.AssignStmt:
+			if x.Tok == token.ADD_ASSIGN && len(x.Lhs) == 1 {
+				if id, ok := unparen(x.Lhs[0]).(*ast.Ident); ok && info.Uses[id] == v {
+					found = true
+				}
+			}
+		}
+		return true
+	})
+	return found
 }
